@@ -38,7 +38,7 @@ for d in sorted(os.listdir(SD)):
         continue
     meta = json.load(open(os.path.join(p, "meta.json")))
     res = {}
-    for tier in ("quick", "thorough"):
+    for tier in os.environ.get("MATRIX_TIERS", "quick,thorough").split(","):
         out = subprocess.run([os.path.join(V, "tools", "seedrun.py"), p, tier], capture_output=True, text=True).stdout.strip().splitlines()
         line = out[0] if out else ""
         m = re.search(r"exit=(\d+) violations=(\d+) asserts=(\[.*\])", line)
